@@ -12,6 +12,9 @@ import (
 type Frame struct {
 	Fn   string
 	Site string // position of the call in the caller ("" for the entry)
+	// the caller's term context and the call instruction that entered this frame (nil for the entry)
+	CallerC *FCtx
+	Call    ssa.Instruction
 }
 
 // Effect is a call / store / send met during the bounded virtual inlining (DESIGN §2.5, §2.14).
@@ -420,7 +423,7 @@ func (w *Walker) instr(in ssa.Instruction, c *FCtx, fl *Flow, facts Facts, path 
 					env[p] = Unk("param:" + funcID(f) + ":" + itoa(i))
 				}
 			}
-			np := append(append([]Frame{}, path...), Frame{Fn: funcID(f), Site: a.P.InstrPos(in)})
+			np := append(append([]Frame{}, path...), Frame{Fn: funcID(f), Site: a.P.InstrPos(in), CallerC: c, Call: in})
 			w.visit(f, env, facts.Clone(), np, onPath)
 		}
 	}
@@ -558,4 +561,47 @@ func (w *Walker) splitCall(fn *ssa.Function) (ssa.Instruction, []*ssa.Return) {
 		}
 	}
 	return nil, nil
+}
+
+
+// PathConds: the conditions (as boolean terms, in entry-root terms) of every If that lies on some path to the effect,
+// in the effect's function and in each caller on the call path.
+func (e *Effect) PathConds() []*Term {
+	var out []*Term
+	collect := func(c *FCtx, target ssa.Instruction) {
+		if c == nil || target == nil {
+			return
+		}
+		tb := target.Block()
+		// blocks from which tb is reachable
+		reach := map[*ssa.BasicBlock]bool{tb: true}
+		for changed := true; changed; {
+			changed = false
+			for _, b := range c.Fn.Blocks {
+				if reach[b] {
+					continue
+				}
+				for _, s := range b.Succs {
+					if reach[s] {
+						reach[b] = true
+						changed = true
+						break
+					}
+				}
+			}
+		}
+		for _, b := range c.Fn.Blocks {
+			if !reach[b] || b == tb {
+				continue
+			}
+			if ifi, ok := b.Instrs[len(b.Instrs)-1].(*ssa.If); ok {
+				out = append(out, c.Term(ifi.Cond))
+			}
+		}
+	}
+	for _, f := range e.Path {
+		collect(f.CallerC, f.Call)
+	}
+	collect(e.C, e.Instr)
+	return out
 }
